@@ -179,6 +179,56 @@ extern "C" void vp_main() {
   vp_observe("n", o1.n);
   d1.m_transport = nullptr; d2.m_transport = nullptr;
 }
+#elif defined(H_STREAM)
+// every stream of L arbitrary bytes decodes to exactly the symbols and won/lost results the protocol definition assigns:
+// reference decoder written from docs/enhanced_proto.md and the C14 statement (fixed-bound loops only)
+struct Out { uint8_t n; uint8_t sym[L]; uint8_t kind[L]; };   // kind: 0 symbol, 1 arbitration won, 2 arbitration lost
+extern "C" void vp_main() {
+  uint8_t s[L];
+  for (int i = 0; i < L; i++) s[i] = vp_nondet_u8();
+  uint8_t am = vp_nondet_u8();
+  uint8_t ac = am == 0xAA ? 0 : (vp_nondet_u8() % 4);
+  MiniTransport* t1 = new MiniTransport(); EnhancedDevice d1(t1); MiniListener l1; d1.setListener(&l1);
+  d1.m_arbitrationMaster = am; d1.m_arbitrationCheck = ac;
+  Out o; o.n = 0;
+  for (int i = 0; i < L; i++) { o.sym[i] = o.kind[i] = 0; t1->append(s[i]); }
+  bool stop = false;
+  for (int i = 0; i < L + 1; i++) {
+    if (!stop) {
+      symbol_t v = 0; ArbitrationState as = as_none;
+      size_t before = t1->m_len;
+      result_t r = d1.recv(0, &v, &as);
+      if (r >= RESULT_OK) { if (o.n < L) { o.sym[o.n] = v; o.kind[o.n] = as == as_won ? 1 : as == as_lost ? 2 : 0; } o.n++; }
+      if (t1->m_len == before || t1->m_len == 0) stop = true;
+    }
+  }
+  // ---- reference ----
+  Out ref; ref.n = 0;
+  for (int i = 0; i < L; i++) { ref.sym[i] = ref.kind[i] = 0; }
+  bool haveFirst = false; uint8_t first = 0;
+  for (int i = 0; i < L; i++) {
+    uint8_t b = s[i];
+    if (haveFirst) {
+      haveFirst = false;
+      if ((b & 0xC0) == 0x80) {
+        uint8_t cmd = (first >> 2) & 0x0f;
+        uint8_t d = static_cast<uint8_t>(((first & 0x03) << 6) | (b & 0x3f));
+        if (cmd == 1 || cmd == 2 || cmd == 0xa) { ref.sym[ref.n] = d; ref.kind[ref.n] = cmd == 2 ? 1 : cmd == 0xa ? 2 : 0; ref.n++; }
+        // RESETTED, INFO, ERROR_* and undefined commands carry no bus symbol
+      }
+      // a byte that is not a second byte directly after a dangling first byte is lost together with it
+    } else if (b < 0x80) { ref.sym[ref.n] = b; ref.kind[ref.n] = 0; ref.n++; }
+    else if ((b & 0xC0) == 0xC0) { haveFirst = true; first = b; }
+    // a second byte without first byte is dropped
+  }
+  bool same = o.n == ref.n;
+  for (int i = 0; i < L; i++) if (i < ref.n && (o.sym[i] != ref.sym[i] || o.kind[i] != ref.kind[i])) same = false;
+  vp_assert("stream-decodes-to-exactly-the-defined-symbols-and-results", same);
+  if (ref.n == L) vp_cover("all-plain-symbols");
+  if (ref.n >= 1 && ref.kind[0] == 1) vp_cover("arbitration-won-decoded");
+  vp_observe("n", o.n);
+  d1.m_transport = nullptr;
+}
 #elif defined(H_INFO)
 // C20: arbitrary INFO frames against an arbitrary info-transfer state: indices into m_infoBuf[17] and the reads of
 // notifyInfoRetrieved (data[0..8]) must stay in bounds (built-in CBMC checks are the obligations here)
